@@ -58,13 +58,14 @@ pub fn h_c05_small() {
     let a = vnd_u8(1);
     let b = vnd_bool(2);
     let c = vnd_u32(3) as usize;
-    let some = vnd_bool(4);
+    let some = vnd_range(0, 2, 4);
     let d = vnd_u64(5);
     let mut w = DefaultProtocolWriter::new(Vec::<u8>::new());
     w.write_u8(a);
     w.write_boolean(b);
     w.write_usize(c);
-    let os = if some { Some("x\u{e9}".to_string()) } else { None };
+    // None, a non-empty string, and the empty string (present but empty is not the same as absent)
+    let os = if some == 1 { Some("x\u{e9}".to_string()) } else if some == 2 { Some(String::new()) } else { None };
     w.write_option_string(&os);
     w.write_uint(d);
     w.write_boolean(!b);
@@ -584,6 +585,8 @@ pub struct VSink {
     /// short writes are injected for 6 consecutive eligible calls starting at this call index
     pub short_from: u32,
     pub failed: bool,
+    /// the sink accepts every write and fails only when it is flushed (a buffered device)
+    pub fail_flush: bool,
 }
 
 impl std::io::Write for VSink {
@@ -603,7 +606,13 @@ impl std::io::Write for VSink {
         while i < k { self.buf.push(b[i]); i += 1; }
         Ok(k)
     }
-    fn flush(&mut self) -> std::io::Result<()> { Ok(()) }
+    fn flush(&mut self) -> std::io::Result<()> {
+        if self.fail_flush {
+            self.failed = true;
+            return Err(std::io::Error::new(std::io::ErrorKind::Other, "injected at flush"));
+        }
+        Ok(())
+    }
 }
 
 /// short writes must not lose bytes; a failing write must be visible through has_error()
@@ -616,9 +625,12 @@ pub fn h_c18_sink() {
     w0.close();
     let reference: Vec<u8> = w0.get_writer().clone();
     let short = vnd_bool(2);
-    let fail_at = if short { 0xffff_ffff } else { vnd_range(0, 60, 3) };
+    // 0..=60: the write call that fails; 61: every write succeeds and the flush at close() fails
+    let fail_sel = if short { 0xffff_ffff } else { vnd_range(0, 61, 3) };
+    let fail_flush = fail_sel == 61;
+    let fail_at = if fail_flush { 0xffff_ffff } else { fail_sel };
     let short_from = if short { vnd_range(0, 3, 4) * 12 } else { 0 };
-    let sink = VSink { buf: Vec::new(), calls: 0, fail_at, short, short_from, failed: false };
+    let sink = VSink { buf: Vec::new(), calls: 0, fail_at, short, short_from, failed: false, fail_flush };
     let mut w: FsmWriter<VSink> = FsmWriter::new(Box::new(DefaultProtocolWriter::new(sink)));
     w.write(&fsm);
     w.close();
